@@ -96,6 +96,7 @@ class GenCfg:
     p_overhang: float = 0.0          # an operator ends 1-2 us BEFORE its last child (timer glitch: not properly nested any more)
     p_nested_annotation: float = 0.0 # a child slot of an operator becomes a user annotation that wraps further operators
     bwd_end_tie: bool = False        # the last autograd operator inside a backward annotation / profiler step ends exactly when that one ends
+    p_launch_at_step_end: float = 0.0  # a launch call of the main thread begins at the very instant a profiler step ends (window boundary)
     p_graph_launch: float = 0.0      # a launch call starts SEVERAL kernels that all carry its correlation id (CUDA graph launch); outside the
                                      # "one host call, one device activity per id" domain, so only for properties without that restriction
     big_vocab: bool = False          # rank 0 uses > 130 distinct operator names and every later rank one name of its own: the later
@@ -399,6 +400,9 @@ class _Sim:
                 t = start + e["dur"]
             else:
                 t = yield from self.annotation(tid, f"ProfilerStep#{cfg.first_step_no + k}", t, n_ops, HOST_OPS)
+            if rng.random() < cfg.p_launch_at_step_end:
+                yield t
+                t = self.launch(tid, t)       # starts exactly where the step ended
             t += rng.choice((0, 0, 1, 4))     # gap between steps
             if rng.random() < 0.3:
                 yield t
